@@ -92,12 +92,20 @@ def case_strategy(draw, tier="quick"):
     lo = draw(st.sampled_from([3, 8, 14]))
     steps = draw(st.lists(st.one_of(st.one_of(*acts).map(lambda a: [a]), pair), min_size=lo,
                           max_size=30))
+    acts_flat = [a for s in steps for a in s]
+    # from_iterable over a list (re-iterable): only redundant starts are generated, no stop (what
+    # a restart of a re-iterable means is not stated); the list must come out exactly once
+    listlike = kind == "iterable" and draw(st.integers(0, 3)) == 0
+    if listlike:
+        acts_flat = [["start" + ("!" if a[0].endswith("!") else "")] if a[0].rstrip("!") == "stop"
+                     else a for a in acts_flat]
     return {"kind": kind, "interval": iv, "mode": mode, "n": draw(st.integers(3, 8)),
+            "listlike": listlike,
             "ctor_start": draw(st.sampled_from([False, False, True])),
             # positions of the iterable that hold a plain None (an item like any other)
             "none_at": sorted(draw(st.sets(st.integers(0, 8), max_size=2)))
             if kind == "iterable" and draw(st.booleans()) else [],
-            "actions": [a for s in steps for a in s]}
+            "actions": acts_flat}
 
 
 def execute(case):
@@ -145,7 +153,10 @@ def execute(case):
                         h.cycle_while_stopped = ("item pulled", log.now())
                     k = produce()
                     yield None if k in none_at else k
-            src = instrument(from_iterable, h)(gen(), **kw)
+            if case.get("listlike"):
+                src = instrument(from_iterable, h)(list(range(case["n"])), **kw)
+            else:
+                src = instrument(from_iterable, h)(gen(), **kw)
         elif kind == "q":
             class Q(queue.Queue):
                 # one poll of the queue is one polling cycle: none may begin while stopped
@@ -275,7 +286,21 @@ def execute(case):
         return int(x) if kind == "textfile" else x
     delivered = [val(e[3]) for e in ev if e[0] == "cc"]
     none_at = set(case.get("none_at", [])) if kind == "iterable" else set()
-    if none_at and h.max_active <= 1:
+    if case.get("listlike"):
+        # once the list is exhausted the source has stopped itself and a start() runs it again
+        # from the top: the deliveries are complete passes over the list, then a prefix of it; a
+        # start() in the middle of a pass (a started source) must not rewind it
+        full = list(range(case["n"]))
+        k_, ok = 0, True
+        while len(delivered) - k_ > len(full):
+            ok = ok and delivered[k_:k_ + len(full)] == full
+            k_ += len(full)
+        ok = ok and delivered[k_:] == full[:len(delivered) - k_]
+        if h.max_active <= 1 and not ok:
+            v.append(("%s:from_iterable:list-pass-rewound" % ID,
+                      "from_iterable(list(range(%d))), start() calls only: delivered %s" % (
+                          case["n"], delivered)))
+    elif none_at and h.max_active <= 1:
         exp = [None if k in none_at else k for k in h.produced]
         if delivered != exp[:len(delivered)] or len(exp) - len(delivered) > 1:
             v.append(("%s:%s:item-lost" % (ID, name), "items taken from the iterable %s, "
@@ -291,7 +316,7 @@ def execute(case):
             if delivered != exp[:len(delivered)] or len(exp) - len(delivered) > 1:
                 v.append(("%s:%s:item-lost" % (ID, name), "produced %s delivered %s" % (
                     exp, delivered)))
-        if kind == "iterable":
+        if kind == "iterable" and not case.get("listlike"):
             # pull k+1 only after the consumer finished item k
             fin = {}
             call = {}
@@ -309,7 +334,7 @@ def execute(case):
                                       e[1], prevk)))
                         break
     classes = ["source:" + name, "consumer:" + case["mode"]] + \
-        (["None-item"] if none_at else []) + \
+        (["None-item"] if none_at else []) + (["list-iterable"] if case.get("listlike") else []) + \
         (["started-by-constructor"] if case.get("ctor_start") else [])
     if restart_while_suspended:
         classes.append("stop-start-while-suspended")
